@@ -622,7 +622,7 @@ def write_if_changed(path, content):
 def main():
     repo = os.environ.get("VERIF_REPO", "/repo")
     here = os.path.dirname(os.path.dirname(os.path.abspath(__file__)))
-    outdir = os.path.join(here, "coq", "gen")
+    outdir = os.path.join(os.environ.get("VERIF_COQ_DIR") or os.path.join(here, "coq"), "gen")
     which = sys.argv[1:] or ["broadword", "consts", "serial", "fingerprints"]
     status = 0
     gens = {"broadword": ("BroadwordGen.v", gen_broadword), "consts": ("ConstsGen.v", gen_consts),
